@@ -201,6 +201,11 @@ def run(job):
             acc.states += 1
             if check(acc, space.rename(desc, ren)):
                 acc.nontrivial += 1
+        if (_idx // job["of"]) % 4 == 2:
+            # names that start with the prefix of the auxiliary inputs, without being one
+            acc.states += 1
+            if check(acc, space.rename(desc, {"a": "aux_in_sel", "b": "aux_in_q7", "g1": "aux_in_"})):
+                acc.nontrivial += 1
         if (_idx // job["of"]) % 8 == 0:
             acc.states += 2
             check(acc, desc, repeat=True)
